@@ -110,10 +110,12 @@ impl Future for StatusFuture {
     self: std::pin::Pin<&mut Self>,
     cx: &mut std::task::Context<'_>,
   ) -> Poll<Self::Output> {
+    // Register before checking: a terminal arriving between a check and
+    // a later registration would never wake this future.
+    self.0.waker.register(cx.waker());
     if self.0.is_closed() {
       Poll::Ready(NormalReturn::new(()))
     } else {
-      self.0.waker.register(cx.waker());
       Poll::Pending
     }
   }
